@@ -1372,8 +1372,10 @@ fn timeout_oracle(w: &DlWorld) -> Vec<(String, String)> {
     // (`sock.closed` is not an external cause here: the scripts of this leg never close the socket, so
     // the flag only says that the harness saw the end of the runtime's own output - after it stopped)
     if w.stop_fired.is_some() || w.sock.unlinked_sent.is_some() {
+        vcommon::sched::oracle_note(if w.stop_fired.is_some() { "timeout laws skipped: external stop" } else { "timeout laws skipped: the script sent unlinked" });
         return out;
     }
+    vcommon::sched::oracle_note(if w.completed_step.is_some() { "timeout laws judged: the runtime stopped" } else { "timeout laws judged: the runtime kept running" });
     let timeout_ms = 30_000u64;
     let t = |step: u64| -> u64 { w.times.get(step as usize).or(w.times.last()).copied().unwrap_or(0) };
     if let Some(c) = w.completed_step {
